@@ -96,10 +96,18 @@ def gen_c07(plan, tier, rng):
         orders += [list(p) for p in itertools.permutations(["not_empty", "min", "max", "pred"])][1:12]
     sks = ["", "X", " XY ", "XYZ", "  "]
     n = 0
+    variants = []
     for vs in orders:
         for ch in ([[], ["trim"]] if tier == "quick" else [[], ["trim"], ["trim", "lowercase"]]):
+            variants.append((ch, vs, None))
+    # literal bounds (ValueOrExpr::Value path; a generator may special-case literal limits)
+    for vs in ([["not_empty", "min", "regex"], ["min", "not_empty"], ["max", "not_empty", "min"]] if tier == "quick" else orders):
+        if "min" in vs or "max" in vs:
+            variants.append((["trim"], vs, {"min": 1, "max": 2}))
+            variants.append(([], vs, {"min": 2, "max": 3}))
+    for (ch, vs, lit) in variants:
             n += 1
-            d = StrDecl(ch, vs, modname="c07s_%d" % n)
+            d = StrDecl(ch, vs, literal=lit, modname="c07s_%d" % n)
             body = ""
             for i, sk in enumerate(sks):
                 hn = "c07_str_%d_%s" % (n, sk_tag(i))
